@@ -73,10 +73,14 @@ def play_traces(chk, wvbin, wd, emit, games, plies, extra=None, corpus=CORPUS_FE
 
 
 def play_extreme(chk, wvbin, wd, emit, pid, quick):
-    """The same random play and the same validation from positions of unusual material (corpus/extreme.fen)."""
-    xf = os.path.join(CORPUS, "extreme.fen")
-    nx = sum(1 for l in open(xf) if l.strip() and not l.startswith("#"))
-    wv(wvbin, ["play", "--seed", chk.seed + 77, "--games", nx * (1 if quick else 6), "--plies", 10 if quick else 40, "--emit", emit, "--corpus", xf,
+    """The same random play and the same validation from positions of unusual material (corpus/extreme.fen) and with crowded
+    slider lines (corpus/crowded.fen)."""
+    lines = [l.strip() for f in ("extreme.fen", "crowded.fen") for l in open(os.path.join(CORPUS, f)) if l.strip() and not l.startswith("#")]
+    xf = os.path.join(wd, "xcorpus.fen")
+    with open(xf, "w") as f:
+        f.write("\n".join(lines) + "\n")
+    nx = len(lines)
+    wv(wvbin, ["play", "--seed", chk.seed + 77, "--games", nx * (1 if quick else 6), "--plies", 6 if quick else 40, "--emit", emit, "--corpus", xf,
                "--out-prefix", os.path.join(wd, "xplay")])
     for kind in emit.split(","):
         path = os.path.join(wd, "xplay.%s.ndjson" % kind)
